@@ -190,8 +190,23 @@ def check(ctx, report):
     if na is None:
         report.error('C19.R2: ParserBinary._parse_numeric_array vanished')
     else:
-        first = [s for s in na.node.body if not (isinstance(s, ast.Expr) and isinstance(s.value, ast.Constant))][0]
-        ok = isinstance(first, ast.If) and 'item_num * item_size' in ast.unparse(first.test) and any(isinstance(x, ast.Raise) for x in first.body)
+        # the first thing the function does - apart from naming pure arithmetic over its arguments - is to compare the declared
+        # count * size with the bytes present and to raise NotEnoughData; decided on linear forms, locals expanded
+        from ..linform import guard_deficit, lin, single_defs
+        body = [s for s in na.node.body if not (isinstance(s, ast.Expr) and isinstance(s.value, ast.Constant))]
+        defs = single_defs(na.node)
+        want = lin(ast.parse('item_num * item_size - self.unparsed_length', mode='eval').body)
+        ok = False
+        for st in body:
+            if isinstance(st, ast.If):
+                gd = guard_deficit(st.test, None, defs)
+                ok = gd is not None and gd[0] == want and any(isinstance(x, ast.Raise) and x.exc is not None and 'NotEnoughData' in ast.unparse(x.exc) for x in st.body)
+                break
+            pure = isinstance(st, ast.Assign) and not any(isinstance(x, (ast.Call, ast.List, ast.ListComp, ast.Tuple, ast.Dict, ast.Set, ast.GeneratorExp, ast.Subscript))
+                                                          and not (isinstance(x, ast.Call) and isinstance(x.func, ast.Name) and x.func.id == 'len')
+                                                          for x in ast.walk(st.value))
+            if not pure:
+                break
         if not ok:
             report.add('C19.R2', na.construct + '@precheck', 'count*size is not compared with the bytes present before the items are unpacked')
     for c in representatives(ctx, '_parse'):
